@@ -76,7 +76,7 @@ func checkC20(c *core.Ctx, l *core.Ledger) {
 			fmt.Fprintf(os.Stderr, "C20 site %s msg=%q\n   conds=%v\n", c.Rel(s.call.Pos()), s.msg, s.conds)
 		}
 	}
-	l.Explanation = "Static clauses of C20 on internal/compare and cmd/thriftbreak: (KINDS) each documented breaking edit has exactly one diagnostic site whose guard is the documented condition — deleted service: the new service is nil; removed method: the new function is nil; required field added: the field id is absent from the old struct and the new field is required; optional->required: old not required and new required; type changed: the two declared type names differ — and there is no other diagnostic site, so edits that make none of these conditions true (identical versions, additive optional fields, new methods/services/types/constants/files) report nothing; (COVER) CompareModules visits every service and every type of the old module paired with the same-named definition of the new module, typ forwards every struct pair, structSpecs indexes every old field by id and visits every new field, service visits every old method paired with the same-named new method: every instance is examined wherever it occurs; (SET-ORDER) the only state written while iterating the (unordered) maps is the diagnostics list, appended by Report alone, and each iteration's diagnostics depend only on that iteration's key and value, so the reported set is independent of iteration order; (EXIT) run returns an error iff the diagnostics list is non-empty after a successful comparison, writes every diagnostic, and main turns any error other than flag.ErrHelp into a fatal exit. NOT decided: git tree diffing (go-git), which files are considered changed, renames, the text of messages, attribution to directories (service-level diagnostics carry the base name by design of the existing tests)."
+	l.Explanation = "Static clauses of C20 on internal/compare and cmd/thriftbreak: (KINDS) each documented breaking edit has exactly one diagnostic site whose guard is the documented condition — deleted service: the new service is nil; removed method: the new function is nil; required field added: the field id is absent from the old struct and the new field is required; optional->required: old not required and new required; type changed: the two declared type names differ — and there is no other diagnostic site, so edits that make none of these conditions true (identical versions, additive optional fields, new methods/services/types/constants/files) report nothing; (COVER) CompareModules visits every service and every type of the old module paired with the same-named definition of the new module, typ forwards every struct pair, structSpecs indexes every old field by id and visits every new field, service visits every old method paired with the same-named new method: every instance is examined wherever it occurs; (SET-ORDER) the only state written while iterating the (unordered) maps is the diagnostics list, appended by Report alone, and each iteration's diagnostics depend only on that iteration's key and value, so the reported set is independent of iteration order; (EXIT) run returns an error iff the diagnostics list is non-empty after a successful comparison, writes every diagnostic, and main turns any error other than flag.ErrHelp into a fatal exit. (ROOT-AGREE) the directory diagnostics are made relative to (Pass.GitDir) and the root against which the git file systems resolve file names are the same value, so filepath.Rel in getRelativePath inverts the Join that produced the module path. NOT decided: git tree diffing (go-git), which files are considered changed, renames, the text of messages, path values on concrete layouts (service-level diagnostics carry the base name by design of the existing tests)."
 	l.RuleText = "one obligation per diagnostic site / traversal loop / exit path"
 	l.Assumptions = []string{"compile.Compile yields modules whose Services/Types/Fields/Functions tables hold exactly the definitions of the file (C06-C09)", "go-git reports the changed .thrift files"}
 
@@ -352,6 +352,60 @@ func checkC20(c *core.Ctx, l *core.Ledger) {
 		l.Unk("EXIT", "thriftbreak.main", "", "not found")
 	}
 	l.Floor("EXIT", 2)
+
+	// ---- ROOT-AGREE: diagnostics are attributed by filepath.Rel(Pass.GitDir, module path); module paths
+	// are filepath.Join(FS.root, relative name). Rel inverts the Join only if both roots are the same value.
+	if f := c.SSAFunc(c.LookupFunc("internal/git", "Compare")); f != nil {
+		var gitDirs, roots []string
+		core.WalkInlined(f, func(caller, callee *ssa.Function) bool { return callee.Pkg == f.Pkg }, func(in ssa.Instruction, via []*ssa.Call) {
+			st, ok := in.(*ssa.Store)
+			if !ok {
+				return
+			}
+			fa, ok := st.Addr.(*ssa.FieldAddr)
+			if !ok {
+				return
+			}
+			fld := core.FieldOf(fa)
+			if fld == nil {
+				return
+			}
+			owner := core.TypeLabel(fa.X.Type())
+			switch {
+			case fld.Name() == "GitDir" && strings.HasSuffix(owner, "compare.Pass"):
+				gitDirs = append(gitDirs, core.Sym(st.Val))
+			case fld.Name() == "root" && strings.HasSuffix(owner, "git.FS"):
+				roots = append(roots, core.Sym(st.Val))
+			}
+		})
+		var why []string
+		if len(gitDirs) == 0 || len(roots) == 0 {
+			why = append(why, fmt.Sprintf("anchors not found (stores to Pass.GitDir: %d, to FS.root: %d)", len(gitDirs), len(roots)))
+		}
+		for _, r := range roots {
+			for _, g := range gitDirs {
+				if r != g {
+					why = append(why, fmt.Sprintf("the file system resolves names against %s but diagnostics are made relative to %s: when the two differ filepath.Rel fails or yields a path outside the repository, and the diagnostic is attributed to the bare file name", r, g))
+				}
+			}
+		}
+		relOK := false
+		if g := c.SSAFunc(c.LookupFunc("internal/compare", "Pass.getRelativePath")); g != nil {
+			core.Instrs(g, func(in ssa.Instruction) {
+				if call, ok := in.(*ssa.Call); ok && core.IsCallTo(call, "path/filepath", "Rel") && len(call.Call.Args) == 2 {
+					if strings.HasSuffix(core.Sym(call.Call.Args[0]), ".GitDir") {
+						relOK = true
+					}
+				}
+			})
+		}
+		if !relOK {
+			why = append(why, "Pass.getRelativePath does not compute filepath.Rel(p.GitDir, path)")
+		}
+		l.Check(len(why) == 0, "ROOT-AGREE", "git.Compare", c.Rel(f.Pos()), fmt.Sprintf("Pass.GitDir and the root of both git file systems are the same value (%v)", uniq(gitDirs)), strings.Join(uniq(why), "; "))
+	} else {
+		l.Unk("ROOT-AGREE", "git.Compare", "", "internal/git.Compare not found")
+	}
 }
 
 // extraGuards walks from the call's block up through single-predecessor chains
